@@ -85,6 +85,10 @@ type SlidingWindow struct {
 	firstWindowStartTime time.Time
 	// watermark for event time processing (only used for EventTime)
 	watermark *Watermark
+	// slotAdvanced reports whether the event-time trigger loop has moved
+	// currentSlot since initialization; until then the slot may be re-seated on
+	// an earlier on-time event (see Add).
+	slotAdvanced bool
 	// triggeredWindows stores windows that have been triggered but are still open for late data (for EventTime with allowedLateness)
 	triggeredWindows map[string]*triggeredWindowInfo // key: window end time string
 	// Performance statistics
@@ -224,6 +228,16 @@ func (sw *SlidingWindow) Add(data any) {
 		}
 		sw.initialized = true
 	}
+	// An on-time event (not behind the watermark) that precedes the slot created
+	// from the first event would otherwise stay buffered forever: the slot only
+	// moves forward. While no window has fired or been skipped yet, re-seat the
+	// slot on this event's slide-aligned interval.
+	if timeChar == types.EventTime && !sw.slotAdvanced && sw.currentSlot != nil &&
+		eventTime.Before(*sw.currentSlot.Start) &&
+		(sw.watermark == nil || !sw.watermark.IsEventTimeLate(eventTime)) {
+		sw.currentSlot = sw.createSlotFromStart(alignWindowStart(eventTime, sw.slide))
+	}
+
 	row := types.Row{
 		Data:      data,
 		Timestamp: eventTime,
@@ -467,6 +481,7 @@ func (sw *SlidingWindow) checkAndTriggerWindows(watermarkTime time.Time) {
 
 		// Move to next window immediately
 		sw.currentSlot = sw.NextSlot()
+		sw.slotAdvanced = true
 		if sw.currentSlot != nil {
 			debugLogSliding("checkAndTriggerWindows: moved to next window [%v, %v)",
 				sw.currentSlot.Start.UnixMilli(), sw.currentSlot.End.UnixMilli())
@@ -794,6 +809,7 @@ func (sw *SlidingWindow) Reset() {
 	sw.data = nil
 	sw.currentSlot = nil
 	sw.initialized = false
+	sw.slotAdvanced = false
 	sw.initChan = make(chan struct{})
 	sw.firstWindowStartTime = time.Time{}
 	sw.triggeredWindows = make(map[string]*triggeredWindowInfo)
